@@ -64,7 +64,7 @@ inductive AV where
   | iter                              -- an iterator value (bidirectional)
   | gen                               -- the iterator of a generator (forward only)
   | pmap                              -- a plain map value returned by a callee
-  | inner (next : Bool)               -- the auxiliary objects 60 (`@next`) / 61 (`@iterator`)
+  | inner (next : Bool)               -- the auxiliary objects 900 (`@next`) / 901 (`@iterator`)
   | one (v : AV)                      -- a one-element list holding `v`
   | obj (n : Name)                    -- a map operand / layer (by identity)
   | host (n : Name) (gen : Nat)       -- host object; gen = number of `copy()` steps from the original
@@ -85,8 +85,8 @@ inductive RV where
   | gen            -- the function is a generator (yields 20, 21): calling it gives an iterator; its
                    -- body — hence its trace event — runs when the iterator is first advanced
                    -- (generated only under `@iterator`)
-  | innerNext      -- another object (name 60) with `@next` counting 2
-  | innerIter      -- another object (name 61) whose own `@iterator` returns the list [20, 21]
+  | innerNext      -- another object (name 900) with `@next` counting 2
+  | innerIter      -- another object (name 901) whose own `@iterator` returns the list [20, 21]
   deriving DecidableEq, Repr, Inhabited
 
 def RV.toAV (self : AV) : RV → AV
@@ -877,8 +877,8 @@ def iterateResult (t : List Ev) : CallRes → Out
   | .ret .str => ⟨t, .ok .builtin⟩
   | .ret .pmap => ⟨t, .ok .builtin⟩
   | .ret (.inner true) =>
-    ⟨t ++ (List.range 3).map (fun _ => (⟨60, .mk .Next, .inner true, []⟩ : Ev)), .ok (.lst [10, 11])⟩
-  | .ret (.inner false) => ⟨t ++ [⟨61, .mk .Iterator, .inner false, []⟩], .ok (.lst [20, 21])⟩
+    ⟨t ++ (List.range 3).map (fun _ => (⟨900, .mk .Next, .inner true, []⟩ : Ev)), .ok (.lst [10, 11])⟩
+  | .ret (.inner false) => ⟨t ++ [⟨901, .mk .Iterator, .inner false, []⟩], .ok (.lst [20, 21])⟩
   -- `@iterator` returning the object itself: `make_iterator` re-enters without bound (native
   -- recursion, stack overflow) — outside the generated envelope
   | .ret (.obj _) => ⟨t, .err .diverge⟩
@@ -983,9 +983,9 @@ def reversed (o : Opd) : Out :=
           | (t, .ret (.prim .range)) => ⟨t, .ok (.lst [1, 0])⟩
           | (t, .ret .str) => ⟨t, .ok .builtin⟩
           | (t, .ret .pmap) => ⟨t, .ok .builtin⟩
-          | (t, .ret (.inner true)) => ⟨t, .err .notReversible⟩   -- object 60 has no `@next_back`
+          | (t, .ret (.inner true)) => ⟨t, .err .notReversible⟩   -- object 900 has no `@next_back`
           | (t, .ret (.inner false)) =>
-            ⟨t ++ [⟨61, .mk .Iterator, .inner false, []⟩], .ok (.lst [21, 20])⟩
+            ⟨t ++ [⟨901, .mk .Iterator, .inner false, []⟩], .ok (.lst [21, 20])⟩
           | (t, .ret (.obj _)) => ⟨t, .err .diverge⟩
           | (t, .ret _) => ⟨t, .err .type⟩
           | (t, r) => ⟨t, r.pass⟩
